@@ -250,7 +250,7 @@ TIE_TEXT = {
               "Props/MotionTie.lean (29 theorems incl. MotionTie_go_xf / _probe_xf / _goabs_xf / _setaxis_xf: move() / rapid() / probe() under any transformer state, the bypass moves and set_axis write exactly the C04 model's statements and track its position; MotionTie_transform_move_xf: the translated _transform_move with self.transform.apply_transform an arbitrary function is the C04 model's transformMove for every transformer state, tracked position, request and both modes; MotionTie_init: the translated constructors yield the model's initial builder, every tracked field assigned per object; set_length_units, the mode context managers as enter / exit pairs, and MotionTie_run: for every history the translated source yields the builder and the statements the model yields) re-proved for every state, finite target, parameter list and hook list: same outcome, same builder "
               "afterwards (a rejected call leaves it untouched: MotionTie_reject_unchanged/_silent), same statements in the same order "
               "(instruction, axis words, other words, the G90/G91 bracket), same hook calls with the true origin and target; Props/SourceTie.lean "
-              "(SourceTie_C04_abs/_rel/_mentions/_machine/_bypass/_setaxis - C04's word, invariant and bypass theorems for the translated move()/rapid()/move_absolute()/set_axis() under any transformer state, the controller reading texts and X/Y/Z words only -, SourceTie_C01, SourceTie_C02 and their _new forms for histories from a newly constructed builder, SourceTie_C05 - erasing the rejected calls changes neither the final builder nor, away from the listed site, the output of the translated source -, SourceTie_C03 - every statement a translated command writes carries F and S words inside their ranges wherever the controller reads them -, SourceTie_C06 - the translated emergency_halt() succeeds from every state under every bounds table and writes M05, M09, the comment, M00|M30 -, SourceTie_C07, SourceTie_C11 - the translated move() given the waypoint in absolute mode and the offset in relative mode has the same outcome and tracks the same position -, SourceTie_C20 - a translated move() hands every registered hook, once and in order, the true absolute origin and target -; same audit) restates C01 and C02 for the translated source with machines that read instruction texts.",
+              "(SourceTie_C04_abs/_rel/_mentions/_machine/_bypass/_setaxis/_probe - C04's word, invariant and bypass theorems for the translated move()/rapid()/move_absolute()/set_axis()/probe() under any transformer state, the controller reading texts and X/Y/Z words only -, SourceTie_C01, SourceTie_C02 and their _new forms for histories from a newly constructed builder, SourceTie_C05 - erasing the rejected calls changes neither the final builder nor, away from the listed site, the output of the translated source -, SourceTie_C03 - every statement a translated command writes carries F and S words inside their ranges wherever the controller reads them -, SourceTie_C06 - the translated emergency_halt() succeeds from every state under every bounds table and writes M05, M09, the comment, M00|M30 -, SourceTie_C07, SourceTie_C11 - the translated move() given the waypoint in absolute mode and the offset in relative mode has the same outcome and tracks the same position -, SourceTie_C20 - a translated move() hands every registered hook, once and in order, the true absolute origin and target -; same audit) restates C01 and C02 for the translated source with machines that read instruction texts.",
     "point": " Translator tie: Point.resolve/replace/mask/combine/within_bounds of gscrib/geometry/point.py are translated by AST into Lean on "
              "every run (tools/gen_point.py -> Gen/PointSrc.lean) and Props/PointTie.lean re-proved: the models' point operations equal the "
              "translated methods; the translator is validated against the real class through driver mode point.",
